@@ -58,6 +58,10 @@ CLAIMED = {
          "Machine-checked theorems over an executable model of the testcase block, the decorators and the CLI try/except ladder: begin/end events are well nested for every tree, an end event says success exactly when the body finished without an exception and skipped exactly when the body raised the skip exception (which then yields None to the caller), the nesting level is restored, the exit status is 0 with a final SUCCESS iff no exception escaped a top-level testcase, otherwise 1 (130 for a keyboard interrupt) with an exception event and FAILURE, and no testcase after the failing one is run or reported. Tied to /repo by running both real CLIs (tbot.main, tbot.newbot) on all trees up to the node bound and on sequences of top-level testcases, reading the JSON log with the harness' own reader.",
          "Trusted: Coq kernel + vm_compute; hand-written model coq/Testcase.v; the module renderer and log reader of the harness; exception kinds Exception / KeyboardInterrupt / SkipException only.",
          "DESIGN.md 8/C16"),
+ "C17": ("Coq proof by induction over write sequences (stored text, printed text, cursor invariant) and over the log parser's loop with a measure (every document read back for every read size) + correspondence with the real EventIO, the real log file and tools/logparser.py",
+         "Machine-checked theorems over an executable model of tbot.log.EventIO (write/_print_lines/close) and of the chunked reader in tools/logparser.py: the stored message of an event is the concatenation of everything written (each write sanitised as documented), for ANY splitting of the text over write calls the terminal shows exactly the stored text with the prefix at every line start plus a final newline, nothing is printed above the verbosity threshold, erasing the inserted prefixes from the printed text leaves the stored text (each character once), and the parser returns every document of a log file in order for EVERY read size n > 0 - proved for any codec with the framing properties and for the concrete brace scanner. Tied to /repo by running the real EventIO with captured stdout, the real log file writer and the real logparser on generated event sequences and chunk sizes. json.dumps/json.JSONDecoder are an environment model (the scanner is validated against raw_decode on every run).",
+         "Trusted: Coq kernel + vm_compute; hand-written model coq/LogEvent.v; CPython's json module modelled by a brace scanner (validated, not verified); terminal colour codes outside the model (CLICOLOR off).",
+         "DESIGN.md 8/C17"),
 }
 NOT_YET = "check not built yet (work in progress; will be claimed once its Coq theorems and correspondence check exist)"
 
